@@ -50,6 +50,7 @@ func main() {
 }
 
 func runLoop() {
+	zooDefs() // fix type ids exactly as the generator did
 	sc := bufio.NewScanner(os.Stdin)
 	sc.Buffer(make([]byte, 1<<20), 1<<28)
 	for sc.Scan() {
@@ -85,6 +86,12 @@ func handle(p []string) (res string) {
 		return opJsonDec(p[1:])
 	case "jsonenc":
 		return opJsonEnc(p[1:])
+	case "T", "A":
+		return "def"
+	case "marshal":
+		return opMarshal(p[1:])
+	case "unmarshal":
+		return opUnmarshal(p[1:])
 	case "wfault":
 		return opWFault(p[1:])
 	case "rfault":
